@@ -30,3 +30,120 @@ def run(chk):
 def replay(chk, path):
     print(open(path).read())
     return 1
+
+
+# ---- oracle-only scenarios: inners that emit inside subscribe() and re-entrant arrival of the next inner ----
+def reentrant_scenarios(chk):
+    import reactivex as rx
+    from reactivex import operators as ops
+    from reactivex.subject import Subject, BehaviorSubject
+    n = 80 if chk.tier == "quick" else 1000
+    hist = {}
+    nontrivial = set()
+    for _ in range(n):
+        which = chk.rng.choice(["switch_latest", "switch_map", "switch_map_indexed", "flat_map_latest"])
+        k = chk.rng.choice([2, 3, 4])
+        # inner i: (has initial value?, arrives re-entrantly when the previous inner's initial value is seen?)
+        spec = [(chk.rng.random() < 0.6, i > 0 and chk.rng.random() < 0.6) for i in range(k)]
+        inners = []
+        for i, (init, _) in enumerate(spec):
+            inners.append(BehaviorSubject(("init", i)) if init else Subject())
+        outer = Subject()
+        out, term = [], []
+        arrived = []
+
+        def arrive(i):
+            arrived.append(i)
+            if which == "switch_latest":
+                outer.on_next(inners[i])
+            else:
+                outer.on_next(i)
+
+        def on_next(v):
+            out.append(v)
+            if isinstance(v, tuple) and v[0] == "init":
+                j = v[1] + 1
+                if j < k and spec[j][1] and j not in arrived:
+                    arrive(j)          # re-entrant: from inside the delivery of inner j-1's first element
+        if which == "switch_latest":
+            o = outer.pipe(ops.switch_latest())
+        elif which == "switch_map":
+            o = outer.pipe(ops.switch_map(lambda i: inners[i]))
+        elif which == "switch_map_indexed":
+            o = outer.pipe(ops.switch_map_indexed(lambda i, _: inners[i]))
+        else:
+            o = outer.pipe(ops.flat_map_latest(lambda i: inners[i]))
+        o.subscribe(on_next, lambda e: term.append("E"), lambda: term.append("C"))
+        for i in range(k):
+            if i not in arrived:
+                arrive(i)
+        latest = arrived[-1]
+        # only the latest inner may still be subscribed
+        stale = [i for i in range(k) if i != latest and inners[i].observers]
+        for i in range(k):
+            inners[i].on_next(("late", i))
+        outer.on_completed()
+        done_before = list(term)
+        inners[latest].on_completed()
+        chk.cov["evaluations"] += 1
+        key = f"{which}/k={k}/reentrant={sum(1 for _, r in spec if r)}"
+        hist[key] = hist.get(key, 0) + 1
+        # reference: every inner is the latest at the moment it is subscribed, so its initial value (if any)
+        # is forwarded, in arrival order; afterwards only the final latest is listened to
+        exp = []
+        def ref_arrive(i, acc):
+            acc.append(i)
+        order = []
+        pending = list(range(k))
+        def sim(i):
+            order.append(i)
+            if spec[i][0]:
+                exp.append(("init", i))
+                j = i + 1
+                if j < k and spec[j][1] and j not in order:
+                    sim(j)
+        for i in range(k):
+            if i not in order:
+                sim(i)
+        exp.append(("late", order[-1]))
+        bad = None
+        if order != arrived:
+            bad = f"harness bug: arrival order {arrived} vs reference {order}"
+        elif stale:
+            bad = f"previous inner(s) {stale} still subscribed after inner {latest} arrived"
+        elif out != exp:
+            bad = f"forwarded {out}, expected {exp}"
+        elif done_before:
+            bad = "completed before the latest inner completed"
+        elif term != ["C"]:
+            bad = f"terminal {term}, expected completion once outer and latest inner completed"
+        if bad:
+            chk.violation(f"C12|reentrant|{which}|{bad[:40]}",
+                          {"operator": which, "inners (has initial value, arrives re-entrantly)": spec,
+                           "arrival order": arrived, "forwarded": out, "expected": exp, "what": bad},
+                          size=k + sum(1 for _, r in spec if r))
+        elif any(r for _, r in spec):
+            nontrivial.add(repr((which, spec)))
+    return nontrivial, hist
+
+
+_run_machines = run
+
+
+def run(chk):
+    chk_finish = chk.finish
+    holder = {}
+
+    def deferred_finish(*a, **kw):
+        holder["args"] = (a, kw)
+        return 0
+    chk.finish = deferred_finish
+    _run_machines(chk)
+    chk.finish = chk_finish
+    nt, hist = reentrant_scenarios(chk)
+    chk.cov["distinct_nontrivial"] += len(nt)
+    chk.cov["input_distribution"]["reentrant_scenarios"] = hist
+    chk.cov["rule"] += ("; plus oracle-only scenarios: inner sequences that emit inside subscribe() (BehaviorSubject) "
+                        "whose first element makes the outer emit the next inner re-entrantly")
+    a, kw = holder["args"]
+    return chk.finish(*a, **kw)
